@@ -7,6 +7,7 @@
 //   VF_Q       (unit types) a quantity class template measured in it, e.g. PhQ::Length; VF_NCOMP its components
 #pragma once
 #include <array>
+#include <cctype>
 #include <cstdio>
 #include <sstream>
 #include <string>
@@ -131,6 +132,7 @@ void models(std::ostringstream& o) {
 inline std::string observe() {
   using namespace PhQ;
   std::ostringstream o;
+  unsigned spell_digest = 7;
   for (const auto& en : vf::enumerators<E>()) {
     const E u = en.value;
     const std::string_view ab = PhQ::Abbreviation(u);
@@ -144,6 +146,20 @@ inline std::string observe() {
 #endif
   }
   o << (PhQ::ParseEnumeration<E>("no such spelling").has_value() ? "?" : "-") << '|';
+  // every accepted spelling of the table, and its upper- and lower-case variants (whether or not those are accepted): what
+  // they parse to must not depend on when the question is asked
+  for (const auto& [spelling, value] : PhQ::Internal::Spellings<E>) {
+    std::string up(spelling), lo(spelling);
+    for (auto& c : up) c = (char)std::toupper((unsigned char)c);
+    for (auto& c : lo) c = (char)std::tolower((unsigned char)c);
+    unsigned acc = 0;
+    for (const std::string& s : {std::string(spelling), up, lo}) {
+      const auto p = PhQ::ParseEnumeration<E>(s);
+      acc = acc * 131 + (unsigned)(p.has_value() ? (int)static_cast<int8_t>(p.value()) + 130 : 1);
+    }
+    spell_digest = spell_digest * 1000003u + acc + (unsigned)static_cast<int8_t>(value);
+  }
+  o << spell_digest << '|';
 #if VF_KIND == 0
   for (const auto& s : vf::enumerators<PhQ::UnitSystem>()) o << (int)static_cast<int8_t>(PhQ::ConsistentUnit<E>(s.value)) << ',' << PhQ::Abbreviation(s.value) << ',';
   o << PhQ::RelatedDimensions<E>.Print() << '|';
